@@ -635,6 +635,12 @@ def generate(seed, index, tier):
             okshape = True
             # all of them at once, or only some (e.g. population sizes batched against one tree)
             some = list(upd) if w.bernoulli(0.55) else sorted(w.sample(list(upd), 1 if w.bernoulli(0.5) else w.randint(1, len(upd))))
+            # one sample shape per state: a parameter that joins others which are already batched takes their size
+            sizes = {int(current(p).shape[0]) for p in upd if p not in some and current(p).dim() > len(base_shapes[p])}
+            if S > 0 and sizes:
+                if len(sizes) > 1:
+                    continue
+                S = sizes.pop()
             for p in some:
                 t = current(p).detach()
                 row = t[(0,) * (t.dim() - len(base_shapes[p]))] if t.dim() > len(base_shapes[p]) else t
@@ -690,6 +696,8 @@ def generate(seed, index, tier):
         import torch as _t
 
         for p in w2.sample(sorted(upd), min(3, len(upd))):
+            if any(current(q).dim() > len(base_shapes[q]) for q in upd):
+                break  # some parameter is still batched (with a size of its own): one sample shape per state
             t = current(p).detach()
             row = t[(0,) * (t.dim() - len(base_shapes[p]))] if t.dim() > len(base_shapes[p]) else t
             if tuple(row.shape) != base_shapes[p] or t.dim() > len(base_shapes[p]):
